@@ -388,7 +388,7 @@ pub fn run_c03(ctx: &Ctx, pool: &[PoolKey]) {
 	let _ = std::fs::create_dir_all(&tmp);
 
 	// --- (a) issuers generated by rcgen: names of every shape, 4x4 key-id methods, every key on either side
-	let n_a = ctx.scale(1_200, 40_000);
+	let n_a = ctx.scale(3_000, 60_000);
 	if ctx.replay.as_ref().map_or(true, |r| r.workload == "rcgen-issuer") {
 		par_for(n_a, ctx.threads, |i| {
 			if let Some(r) = &ctx.replay {
@@ -738,7 +738,7 @@ fn compare_import(ctx: &Ctx, case: &CaseId, text: &str, spec: &ParamSpec, cert_v
 pub fn run_c17(ctx: &Ctx, pool: &[PoolKey]) {
 	let locals = local_keys(pool);
 	// workloads: all key-usage subsets, all path lengths, all prefixes, random
-	let workloads: [(&str, u64); 4] = [("ku", 512), ("pathlen", 256), ("prefix", 512), ("random", ctx.scale(4_000, 150_000))];
+	let workloads: [(&str, u64); 4] = [("ku", 512), ("pathlen", 256), ("prefix", 512), ("random", ctx.scale(12_000, 250_000))];
 	for (wl, n) in workloads {
 		if let Some(r) = &ctx.replay {
 			if r.workload != wl {
